@@ -674,6 +674,10 @@ def replay_violation(prop: str, path: str, judges: list[str]) -> int:
     from pv.common import load_replay
 
     v = load_replay(path)["violation"]
+    if v.get("bundled"):
+        from pv.checks import bundled
+
+        return bundled.replay_bundled(prop, path, v, judges)
     shard = {
         "prop": prop,
         "judges": judges,
